@@ -19,6 +19,7 @@ type Clause struct {
 type LoopContract struct {
 	Invariants []Clause
 	Decreases  *Clause
+	Unroll     int
 }
 
 type FuncContract struct {
@@ -221,6 +222,14 @@ func parseClause(fc *FuncContract, word, rest string) error {
 		if lc == nil {
 			lc = &LoopContract{}
 			fc.Loops[n] = lc
+		}
+		if kind == "unroll" {
+			k, err := strconv.Atoi(strings.TrimSpace(r3))
+			if err != nil {
+				return err
+			}
+			lc.Unroll = k
+			return nil
 		}
 		lab, src := labelled(r3)
 		e, err := ParseExpr(src)
